@@ -392,6 +392,16 @@ Additions for cli/argument_parsing.py, introspection.py and the get_args() of th
                       (class LoopReturn) into `loop_ret = None; for ..: .. loop_ret = e; break ..; if loop_ret is not None: return loop_ret`
                       with loop_ret a fresh variable of type `opt T`, T the return type (a returned None is `Some None`).  At most one such
                       loop; refused when the loop has a `break` of its own, an else clause, or the return sits in a nested loop / with / try.
+Addition for nextflow/scripts/batchie.py validate_job_dir_and_return_meta after the repair of the torn-marker finding (C19):
+  cfg["try_except_classes"]  [exception class names]: the one handler of a cfg["try_prims"] statement may also be `except E:` with E a
+                      listed class (no `as`).  The configuration TRUSTS that the failure answers of the declared primitive are exactly
+                      its exceptions of class E (json.load: ValueError = JSONDecodeError / UnicodeDecodeError); everything else as for
+                      cfg["try_prims"].  Without the key only a bare `except:` / `except Exception:` is accepted, as before.
+  cfg["short_circuit"]  True: `a or b` / `a and b` whose LATER operand may raise (a `!` primitive): instead of the refusal the operand's
+                      computation is bound inside the branch in which Python evaluates it -
+                          bind v <- (if a then ok true else (bind r <- <b's computation>; ok b));      (`and`: if a then (...) else ok false)
+                      and v is the value; operands that cannot raise are joined with || / && as before.  Without the key such an
+                      operand is refused as before (hoisting it would evaluate it unconditionally).
 """
 import ast
 
@@ -839,12 +849,26 @@ class Tr:
             return "(negb %s)" % self.cond(e.operand, env, hoist), ("bool",)
         if isinstance(e, ast.BoolOp):
             parts = [self.cond(e.values[0], env, hoist)]
+            op = " && " if isinstance(e.op, ast.And) else " || "
             for x in e.values[1:]:
                 later = []
-                parts.append(self.cond(x, env, later))
+                px = self.cond(x, env, later)
                 if later:     # Python short-circuits: an operand that may raise must not be evaluated before the first
-                    raise Unsupported("and/or whose later operand may raise (hoisting it would evaluate it unconditionally): " + ast.unparse(e))
-            op = " && " if isinstance(e.op, ast.And) else " || "
+                    if not self.cfg.get("short_circuit"):
+                        raise Unsupported("and/or whose later operand may raise (hoisting it would evaluate it unconditionally): " + ast.unparse(e))
+                    # cfg["short_circuit"]: the operand's computation is bound INSIDE the branch in which Python evaluates it
+                    sofar = parts[0] if len(parts) == 1 else "(" + op.join(parts) + ")"
+                    inner = "".join("%s %s <- %s; " % (self.M["bind"], a, t) for a, t in later) + "%s %s" % (self.M["ok"], px)
+                    n = self.new("b")
+                    if isinstance(e.op, ast.And):
+                        hoist.append((n, "(if %s then (%s) else %s false)" % (sofar, inner, self.M["ok"])))
+                    else:
+                        hoist.append((n, "(if %s then %s true else (%s))" % (sofar, self.M["ok"], inner)))
+                    parts = [n]
+                else:
+                    parts.append(px)
+            if len(parts) == 1:
+                return parts[0], ("bool",)
             return "(" + op.join(parts) + ")", ("bool",)
         if isinstance(e, ast.Compare):
             if len(e.ops) != 1:
@@ -1917,8 +1941,9 @@ class Tr:
         if st.orelse or st.finalbody or len(st.handlers) != 1:
             raise Unsupported("try statement other than try / one except")
         h = st.handlers[0]
-        if h.name is not None or not (h.type is None or (isinstance(h.type, ast.Name) and h.type.id == rn("Exception"))):
-            raise Unsupported("except clause other than a bare `except:` / `except Exception:`")
+        named = [rn("Exception")] + [rn(c) for c in self.cfg.get("try_except_classes", [])]
+        if h.name is not None or not (h.type is None or (isinstance(h.type, ast.Name) and h.type.id in named)):
+            raise Unsupported("except clause other than a bare `except:` / `except Exception:` / a class of cfg[\"try_except_classes\"]")
         jumps = (ast.Continue, ast.Return, ast.Break, ast.Raise)
         if any(isinstance(n, jumps) for part in (st.body, h.body) for x in part for n in ast.walk(x)):
             raise Unsupported("continue / break / return / raise inside try / except")
